@@ -13,16 +13,17 @@ func ruleFamilyFanOut(w *World, r *Report, ruleB, ruleC string) {
 	ro := resolveRoles(w)
 	add := w.MustFn(w.Godi, "(*collection).addService")
 	ci := ro.createInstance
-	info := ci.Pkg.TypesInfo
 	ainfo := add.Pkg.TypesInfo
 	src := func(fi *FuncInfo) string {
 		var sb strings.Builder
-		ast.Inspect(fi.Decl.Body, func(x ast.Node) bool {
-			if ifs, ok := x.(*ast.IfStmt); ok {
-				sb.WriteString(exprStr(ifs.Cond) + "\n")
-			}
-			return true
-		})
+		for _, f := range w.Within(fi, 3) {
+			ast.Inspect(f.Decl.Body, func(x ast.Node) bool {
+				if ifs, ok := x.(*ast.IfStmt); ok {
+					sb.WriteString(exprStr(ifs.Cond) + "\n")
+				}
+				return true
+			})
+		}
 		return sb.String()
 	}
 	regConds, outConds := src(add), src(ci)
@@ -41,14 +42,16 @@ func ruleFamilyFanOut(w *World, r *Report, ruleB, ruleC string) {
 			if f.name == "As" {
 				// an alias fan-out must learn the sibling aliases: reads descriptor.As or a shared-constructor relation
 				has = false
-				ast.Inspect(ci.Decl.Body, func(x ast.Node) bool {
-					if sel, ok := x.(*ast.SelectorExpr); ok && sel.Sel.Name == "As" {
-						if fv := fieldOf(info, sel); fv != nil && ownerOfField(w, fv) == "Descriptor" {
-							has = true
+				for _, f := range w.Within(ci, 3) {
+					ast.Inspect(f.Decl.Body, func(x ast.Node) bool {
+						if sel, ok := x.(*ast.SelectorExpr); ok && sel.Sel.Name == "As" {
+							if fv := fieldOf(f.Pkg.TypesInfo, sel); fv != nil && ownerOfField(w, fv) == "Descriptor" {
+								has = true
+							}
 						}
-					}
-					return true
-				})
+						return true
+					})
+				}
 			}
 			r.Check(has, ruleB, con, ci.Decl.Pos(), true,
 				"createInstance stores every member of the "+f.name+" family produced by one constructor call",
@@ -59,82 +62,97 @@ func ruleFamilyFanOut(w *World, r *Report, ruleB, ruleC string) {
 		return
 	}
 	// lookup identity of the two fan-outs
-	ast.Inspect(ci.Decl.Body, func(x ast.Node) bool {
-		rs, ok := x.(*ast.RangeStmt)
-		if !ok {
-			return true
-		}
-		for _, c := range callsIn(rs.Body, false) {
-			cal := callee(info, c)
-			if cal == nil || cal.Name() != "findDescriptor" || len(c.Args) != 2 {
-				continue
-			}
-			fam := "result-object"
-			if strings.Contains(exprStr(rs.X), "Returns") {
-				fam = "multi-return"
-			}
-			con := fmt.Sprintf("%s#fan-out-lookup:%s", ci.Name(), fam)
-			var problems []string
-			// does the loop consult the groups view for members registered into a group?
-			looksAtGroups := false
-			ast.Inspect(rs.Body, func(y ast.Node) bool {
-				if cc, ok := y.(*ast.CallExpr); ok {
-					if cal2 := callee(info, cc); cal2 != nil && cal2.Name() == "findGroupDescriptors" {
-						looksAtGroups = true
-					}
-				}
+	for _, cif := range w.Within(ci, 3) {
+		info := cif.Pkg.TypesInfo
+		ast.Inspect(cif.Decl.Body, func(x ast.Node) bool {
+			st, isStmt := x.(ast.Stmt)
+			if !isStmt {
 				return true
-			})
-			// registration side: does the family literal set Group / Key from non-constant data?
-			setsGroup, setsKey := false, false
-			ast.Inspect(add.Decl.Body, func(y ast.Node) bool {
-				cl, ok := y.(*ast.CompositeLit)
-				if !ok {
-					return true
-				}
-				tv, ok := ainfo.Types[cl]
-				if !ok || !isNamedType(tv.Type, modPath, "Descriptor") {
-					return true
-				}
-				fl := compositeFields(cl)
-				isFam := (fam == "result-object" && strings.Contains(exprStr(fl["Type"]), "field.")) ||
-					(fam == "multi-return" && strings.Contains(exprStr(fl["Type"]), "ret."))
-				if !isFam {
-					return true
-				}
-				if g, ok := fl["Group"]; ok && !isEmptyString(ainfo, g) {
-					setsGroup = true
-				}
-				if _, ok := fl["Key"]; ok {
-					setsKey = true
-				}
+			}
+			il := asIterLoop(info, st)
+			if il == nil {
 				return true
-			})
-			if fam == "multi-return" {
-				// Key assigned after the literal (options.Name)
-				ast.Inspect(add.Decl.Body, func(y ast.Node) bool {
-					if as, ok := y.(*ast.AssignStmt); ok {
-						for _, l := range as.Lhs {
-							if isFieldNamed(ainfo, l, "Key") && strings.Contains(exprStr(l), "typeDescriptor") {
-								setsKey = true
-							}
+			}
+			rs := struct {
+				X    ast.Expr
+				Body *ast.BlockStmt
+			}{il.Coll, il.Body}
+			for _, c := range callsIn(rs.Body, false) {
+				cal := callee(info, c)
+				if cal == nil || cal.Name() != "findDescriptor" || len(c.Args) != 2 {
+					continue
+				}
+				fam := "result-object"
+				if strings.Contains(exprStr(rs.X), "Returns") {
+					fam = "multi-return"
+				}
+				con := fmt.Sprintf("%s#fan-out-lookup:%s", ci.Name(), fam)
+				var problems []string
+				// does the loop consult the groups view for members registered into a group?
+				looksAtGroups := false
+				ast.Inspect(rs.Body, func(y ast.Node) bool {
+					if cc, ok := y.(*ast.CallExpr); ok {
+						if cal2 := callee(info, cc); cal2 != nil && cal2.Name() == "findGroupDescriptors" {
+							looksAtGroups = true
 						}
 					}
 					return true
 				})
+				// registration side: does the family literal set Group / Key from non-constant data?
+				setsGroup, setsKey := false, false
+				for _, addf := range w.Within(add, 3) {
+					ast.Inspect(addf.Decl.Body, func(y ast.Node) bool {
+						cl, ok := y.(*ast.CompositeLit)
+						if !ok {
+							return true
+						}
+						tv, ok := ainfo.Types[cl]
+						if !ok || !isNamedType(tv.Type, modPath, "Descriptor") {
+							return true
+						}
+						fl := compositeFields(cl)
+						isFam := (fam == "result-object" && strings.Contains(exprStr(fl["Type"]), "field.")) ||
+							(fam == "multi-return" && strings.Contains(exprStr(fl["Type"]), "ret."))
+						if !isFam {
+							return true
+						}
+						if g, ok := fl["Group"]; ok && !isEmptyString(ainfo, g) {
+							setsGroup = true
+						}
+						if _, ok := fl["Key"]; ok {
+							setsKey = true
+						}
+						return true
+					})
+				}
+				if fam == "multi-return" {
+					// Key assigned after the literal (options.Name)
+					for _, addf := range w.Within(add, 3) {
+						ast.Inspect(addf.Decl.Body, func(y ast.Node) bool {
+							if as, ok := y.(*ast.AssignStmt); ok {
+								for _, l := range as.Lhs {
+									if isFieldNamed(ainfo, l, "Key") && strings.Contains(strings.ToLower(exprStr(l)), "descriptor") && !isNilIdent(ainfo, as.Rhs[0]) {
+										setsKey = true
+									}
+								}
+							}
+							return true
+						})
+					}
+				}
+				if setsGroup && !looksAtGroups {
+					problems = append(problems, "members registered into a group (filed under groups with an index key) are looked up only in the services view")
+				}
+				if setsKey && isNilIdent(info, c.Args[1]) {
+					problems = append(problems, "the member registered under a name is looked up with a nil key")
+				}
+				r.Check(len(problems) == 0, ruleC, con, c.Pos(), true,
+					"the fan-out looks each output up under the identity it was registered with",
+					"the "+fam+" fan-out does not look its outputs up under the identity they were registered with: "+strings.Join(problems, "; "))
 			}
-			if setsGroup && !looksAtGroups {
-				problems = append(problems, "members registered into a group (filed under groups with an index key) are looked up only in the services view")
-			}
-			if setsKey && isNilIdent(info, c.Args[1]) {
-				problems = append(problems, "the member registered under a name is looked up with a nil key")
-			}
-			r.Check(len(problems) == 0, ruleC, con, c.Pos(), true,
-				"the fan-out looks each output up under the identity it was registered with",
-				"the "+fam+" fan-out does not look its outputs up under the identity they were registered with: "+strings.Join(problems, "; "))
-		}
-		return true
-	})
+			return true
+		})
+	}
 }
 
 // ruleCheckThenAct: R02.5.
